@@ -805,3 +805,30 @@ Fixpoint wf_run (s : sstate) (rs : list srequest) : bool :=
   | [] => true
   | r :: t => wf_label s r && wf_run (fst (sstep s r)) t
   end.
+
+(* ---------------------------------------------------------------- the label of a flatten that stored its result *)
+
+Open Scope Z_scope.
+
+Definition odfi_okb (z : Z) : bool := (0 <=? z) && (z <? 100000000).
+
+(* the header the consolidated batch copies validates (its Batch.Create succeeded), is no ADV and no
+   mixed IAT header, and carries an eight digit ODFI *)
+Definition group_cell_ok (s : sstate) (p : N) (g : group) : bool :=
+  match somes (map (bat_at s p) (g_srcs g)) with
+  | [] => true
+  | q0 :: _ => let b := ss_bat s q0 in
+               bc_hdr_ok b && negb (bc_adv b) && negb (bc_iat b && (bc_svc b =? svc_mixed)) && odfi_okb (bc_odfi b)
+  end.
+
+Definition group_ents (s : sstate) (p : N) (g : group) : list N :=
+  match somes (map (bat_at s p) (g_srcs g)) with
+  | [] => []
+  | _ :: _ => somes (map (ent_at s p) (g_refs g))
+  end.
+
+(* FlattenBatches puts every entry of the receiver into exactly one consolidated batch *)
+Definition wf_flat_result (s : sstate) (p : N) (gs : list group) : bool :=
+  forallb (group_cell_ok s p) gs && nodupb (concat (map (group_ents s p) gs)).
+
+Open Scope N_scope.
